@@ -46,6 +46,11 @@ fn c18_scanner_transmit() {
         vassert!(res.is_none(), "C18/sweep: after an address is done the application ends its turn");
         vassert!(sc.cursor == succ(pre_cursor) || (succ(pre_cursor) == ts && sc.cursor == succ(ts)), "C18/sweep: the sweep advances to the next address, wrapping after 125 (only the scanning station's own address may be skipped)");
         vassert!(!sc.current_address_done, "C18/sweep: the next address is pending");
+    } else if res.is_none() {
+        // declining is acceptable only when the station offers nothing but a high-priority cycle,
+        // and it must not lose the pending address
+        vassert!(hp == HighPrioOnly::Yes, "C18/sweep: a pending address is probed when the station offers a regular cycle");
+        vassert!(sc.cursor == pre_cursor && !sc.current_address_done, "C18/sweep: a declined turn does not skip the pending address");
     } else {
         let r = res.unwrap();
         // the probe goes to the cursor address; a cursor sitting on the scanning station's own
@@ -130,4 +135,115 @@ fn c18_scanner_reply_or_timeout() {
         kani::cover!(was_set, "cover: peripheral lost");
     }
     vassert!(sc.current_address_done && sc.cursor == addr, "C18/sweep: the address is done");
+}
+
+// Bounded history for the DP scanner (see fdl_live_list.rs: livelist_history): K consecutive
+// address visits against a stable population of DP peripherals (each with its own ident number),
+// non-DP stations (answering with something that is not a diagnostics response) and silent
+// addresses, with symbolic reply losses.
+fn scanner_history<const K: usize>() {
+    let fdl = any_fdl();
+    let ts = fdl.parameters().address;
+    let mut sc = any_scanner();
+    let peripherals: [usize; 2] = [kani::any(), kani::any()];
+    let strangers: [usize; 2] = [kani::any(), kani::any()];
+    let ident_hi: u8 = kani::any();
+    let master: u8 = kani::any();
+    let succ = |a: u8| if a >= 125 { 0 } else { a + 1 };
+    let mut ghost = sc.stations.data;
+    let mut visited: [u8; K] = [0; K];
+    let mut clean: [bool; K] = [false; K];
+    let mut prev: Option<u8> = None;
+    let mut k = 0;
+    while k < K {
+        let mut buf = [0u8; 12];
+        let now = crate::time::Instant::from_micros(kani::any::<u32>());
+        let mut res = sc.transmit_telegram(now, &fdl, TelegramTx::new(&mut buf), HighPrioOnly::No);
+        if res.is_none() {
+            // the application ended its turn (address done).  A late token may come in between: the
+            // station then offers only a high-priority cycle, which may be declined or used, but
+            // must not lose the pending address.  The next regular turn must probe.
+            if kani::any() {
+                let late = sc.transmit_telegram(now, &fdl, TelegramTx::new(&mut buf), HighPrioOnly::Yes);
+                if late.is_some() {
+                    res = late;
+                }
+            }
+            if res.is_none() {
+                res = sc.transmit_telegram(now, &fdl, TelegramTx::new(&mut buf), HighPrioOnly::No);
+            }
+        }
+        vassert!(res.is_some(), "C18/sweep: at most one empty turn between two probes");
+        let p = res.unwrap().expects_reply().unwrap();
+        vassert!(p <= 125, "C18/probe: only addresses 0..125 are probed");
+        if let Some(q) = prev {
+            vassert!(p == succ(q) || (succ(q) == ts && p == succ(ts)), "C18/sweep: consecutive visits probe consecutive addresses (only the scanning station's own address may be skipped)");
+        }
+        prev = Some(p);
+        visited[k] = p;
+        let lost: bool = kani::any();
+        let is_dp = bit(&peripherals, p) && p != ts;
+        let is_other = !is_dp && bit(&strangers, p) && p != ts;
+        let was = bit(&ghost, p);
+        if is_dp && !lost {
+            // ident number individual per address: high byte common, low byte = address
+            let pdu = [0x00u8, 0x0c, 0x00, master, ident_hi, p];
+            let t = Telegram::Data(DataTelegram {
+                h: DataTelegramHeader { da: ts, sa: p, dsap: Some(62), ssap: Some(60), fc: FunctionCode::Response { state: crate::fdl::ResponseState::Slave, status: crate::fdl::ResponseStatus::DataLow } },
+                pdu: &pdu,
+            });
+            sc.receive_reply(now, &fdl, p, t);
+            let desc = DpPeripheralDescription { address: p, ident: u16::from(ident_hi) << 8 | u16::from(p), master_address: if master == 255 { None } else { Some(master) } };
+            let ev = sc.take_last_event();
+            vassert!(ev == Some(if was { DpScanEvent::PeripheralRequery(desc) } else { DpScanEvent::PeripheralFound(desc) }), "C18/events: Found exactly when the peripheral was unknown, Requery otherwise, with this peripheral's ident number (history)");
+            ghost[usize::from(p) / 64] |= 1usize << (usize::from(p) % 64);
+        } else if is_other && !lost {
+            // a station that answers, but not with a diagnostics response (no SAPs)
+            let t = Telegram::Data(DataTelegram {
+                h: DataTelegramHeader { da: ts, sa: p, dsap: None, ssap: None, fc: FunctionCode::Response { state: any_response_state(), status: crate::fdl::ResponseStatus::Ok } },
+                pdu: &[],
+            });
+            sc.receive_reply(now, &fdl, p, t);
+            let ev = sc.take_last_event();
+            vassert!(ev.is_none(), "C18/events: a station that is not a DP peripheral produces no event (history)");
+        } else {
+            sc.handle_timeout(now, &fdl, p);
+            let ev = sc.take_last_event();
+            vassert!(ev == if was { Some(DpScanEvent::PeripheralLost(p)) } else { None }, "C18/events: Lost exactly when the peripheral was known (history)");
+            ghost[usize::from(p) / 64] &= !(1usize << (usize::from(p) % 64));
+        }
+        clean[k] = !((is_dp || is_other) && lost);
+        vassert!(sc.stations.data[0] == ghost[0] && sc.stations.data[1] == ghost[1], "C18/list: the known set changes only at the probed address, as the events say (history)");
+        k += 1;
+    }
+    let mut i = 0;
+    while i < K {
+        let a = visited[i];
+        let mut later = false;
+        let mut j = i + 1;
+        while j < K {
+            later |= visited[j] == a;
+            j += 1;
+        }
+        // a non-DP station keeps whatever the scanner knew before (the one-step lemma: no change);
+        // the population model of the property has DP peripherals and silent addresses
+        if clean[i] && !later && a != ts && !(bit(&strangers, a) && !bit(&peripherals, a)) {
+            vassert!(bit(&sc.stations.data, a) == bit(&peripherals, a), "C18/list: after a loss-free visit the scanner knows exactly the answering DP peripherals at that address (history)");
+        }
+        i += 1;
+    }
+    kani::cover!(visited[K - 1] < visited[0], "cover: the history wraps around address 125");
+    kani::cover!(clean[K - 1] && bit(&peripherals, visited[K - 1]) && visited[K - 1] != ts, "cover: a peripheral is known at the end of the history");
+}
+
+#[kani::proof]
+#[kani::unwind(14)]
+fn c18_scanner_history_q() {
+    scanner_history::<4>();
+}
+
+#[kani::proof]
+#[kani::unwind(14)]
+fn c18_scanner_history_t() {
+    scanner_history::<10>();
 }
